@@ -84,9 +84,9 @@ RECIPES = {
         monitors={"C14"},
         mc=[MC_QM, MC_POLICY_FSYNC],
         runs=[dict(cmd="run", gen="small:40,positions:20,gc-heavy:8,restarts:20,batch:8,aim-roll:24,aim-gc:16",
-                   policy="always_flush,do_nothing,always_fsync,on_delay_0_flush,on_delay_0_fsync,on_delay_long_flush,on_delay_long_fsync",
+                   policy="always_flush,do_nothing,always_fsync,on_delay_0_flush,on_delay_0_fsync,on_delay_long_flush,on_delay_long_fsync,on_delay_us_flush,on_delay_us_fsync",
                    opts={"c14": True})],
-        rule="same script under 7 policies: results (positions, eviction counts, error kinds) and states of every call "
+        rule="same script under 9 policies (OnDelay with interval 0, 60 us - clock-dependent - and 1 h): results (positions, eviction counts, error kinds) and states of every call "
              "and restart identical to the reference run; non-trivial = calls compared",
         nontrivial_stat="calls",
     ),
